@@ -35,6 +35,7 @@ JoinNames(s) == IF s = << >> THEN "" ELSE IF Len(s) = 1 THEN s[1] ELSE s[1] \o "
 \* the names of a set of deviation families, in a fixed order, joined with "+"
 Order == <<"json-nonfinite-float", "json-raw-line-break", "json-unescaped-nonprintable-rejected", "loader-float-dot-underscore",
            "loader-float-without-dot-or-signed-exponent", "nel-folded-in-single-quoted-scalar",
+           "union-enum-member-serialises-anything",
            "skip-default-inside-dict-value", "skip-default-required-subcommand-raises", "subcommand-selector-not-dumped">>
 Names(S) == JoinNames(SelectSeq(Order, LAMBDA a : a \in S))
 RECURSIVE HasSet(_)
@@ -76,7 +77,7 @@ Outcome(r, v) == IF IsErr(r) THEN "rejected" ELSE IF Same(r, v) THEN "same" ELSE
 CheckLeaf(k) ==
   LET o    == Leafs[k]
       viaRuyaml == o.route = "print/comments"                                \* the text was rewritten by a second yaml library: not modelled
-      alg  == IF viaRuyaml THEN Unsure ELSE ReparseLeafSN(o.t, o.v, o.fmt, FALSE, o.sn)
+      alg  == ReparseLeafSN(o.t, o.v, o.fmt, FALSE, o.sn)
       hz   == LeafHazards(o.t, o.v, o.fmt)
       tree == SerializeLeafSN(o.t, o.v, FALSE, o.sn)
       \* skip_none loses the None fields of dataclass values by design: what must come back is what the ideal pipeline gives
@@ -84,12 +85,12 @@ CheckLeaf(k) ==
       vhz  == ValueHazards("yaml", o.v) \cup ValueHazards(o.fmt, o.v)      \* nested dataclass values travel through yaml whatever the format
   IN \* ---- Ref: the re-parsed value is the value, value for value and type for type
      /\ (Same(o.re, want) \/ (o.sn /\ IsUnsure(want) /\ ~IsErr(o.re)))
-        \/ Say("leaf", k, IF viaRuyaml THEN (IF SchemaDependent(o.v) THEN "ref-dev:yaml-comments-schema-dependent-scalar" ELSE "ref-other")
-                          ELSE IF IsUnsure(alg) THEN (IF vhz # {} THEN "ref-dev:" \o Names(vhz) ELSE "ref-other")
-                          ELSE IF hz # {} /\ Outcome(o.re, want) = Outcome(alg, want) THEN "ref-dev:" \o Names(hz)
+        \/ Say("leaf", k, IF hz # {} /\ ~IsUnsure(alg) /\ Outcome(o.re, want) = Outcome(alg, want) THEN "ref-dev:" \o Names(hz)
+                          ELSE IF viaRuyaml /\ SchemaDependent(o.v) THEN "ref-dev:yaml-comments-schema-dependent-scalar"
+                          ELSE IF IsUnsure(alg) /\ vhz # {} THEN "ref-dev:" \o Names(vhz)
                           ELSE "ref-other")
      \* ---- Alg
-     /\ (IsUnsure(alg) \/ Approx(o.re, alg) \/ (IsErr(o.re) /\ IsErr(alg)) \/ (hz # {} /\ Outcome(o.re, want) = Outcome(alg, want))) \/ Say("leaf", k, "alg-reparse")
+     /\ (viaRuyaml \/ IsUnsure(alg) \/ Approx(o.re, alg) \/ (IsErr(o.re) /\ IsErr(alg)) \/ (hz # {} /\ Outcome(o.re, want) = Outcome(alg, want))) \/ Say("leaf", k, "alg-reparse")
      /\ (o.doc.k = "null" \/ Bad(tree) \/ IsErr(o.doc) \/ HasSet(o.v) \/ DocEq(WriteDoc(o.fmt, tree), o.doc)) \/ Say("leaf", k, "alg-dump-text")
 
 Fl(o, ideal) == Flags(ideal, o.sn, o.sd)
@@ -103,9 +104,15 @@ CheckCfg(k) ==
       asAlg == (IsErr(o.re) /\ IsErr(alg)) \/ (~Bad(o.re) /\ ~Bad(alg) /\ o.re.sel = alg.sel /\ Len(o.re.top) = Len(alg.top) /\ Len(o.re.sub) = Len(alg.sub)
                                                /\ (\A n \in 1..Len(alg.top) : Approx(o.re.top[n], alg.top[n])) /\ (\A n \in 1..Len(alg.sub) : Approx(o.re.sub[n], alg.sub[n])))
       okCfg(r) == ~Bad(r) /\ SameCfg(r, want)
-      sameKind == (IsErr(o.re) /\ IsErr(alg)) \/ (~Bad(o.re) /\ ~Bad(alg) /\ okCfg(o.re) = okCfg(alg))     \* a float read from a hazard str is not computed here
+      kindAs(a) == (IsErr(o.re) /\ IsErr(a)) \/ (~Bad(o.re) /\ ~Bad(a) /\ okCfg(o.re) = okCfg(a))             \* a float read from a hazard str is not computed here
+      sameKind == kindAs(alg)
+      \* the same with an IDEAL scalar layer: what remains when only the configuration-level deviations apply
+      ialg    == ReparseCfg(shape, o.cfg, o.fmt, Fl(o, TRUE))
+      cfgdevs == devs \cap {"skip-default-inside-dict-value", "skip-default-required-subcommand-raises", "subcommand-selector-not-dumped"}
   IN /\ (~Bad(o.re) /\ SameCfg(o.re, want))
-        \/ Say("cfg", k, IF devs # {} /\ (asAlg \/ IsUnsure(alg) \/ sameKind) THEN "ref-dev:" \o Names(devs) ELSE "ref-other")
+        \/ Say("cfg", k, IF devs # {} /\ (asAlg \/ IsUnsure(alg) \/ sameKind) THEN "ref-dev:" \o Names(devs)
+                         ELSE IF cfgdevs # {} /\ ~IsUnsure(ialg) /\ kindAs(ialg) THEN "ref-dev:" \o Names(cfgdevs)
+                         ELSE "ref-other")
      /\ (IsUnsure(alg) \/ asAlg \/ (devs # {} /\ sameKind)) \/ Say("cfg", k, "alg-reparse")
      /\ (o.doc.k = "null" \/ Bad(tree) \/ IsErr(o.doc) \/ (\E n \in 1..Len(o.cfg.top) : HasSet(o.cfg.top[n])) \/ (\E n \in 1..Len(o.cfg.sub) : HasSet(o.cfg.sub[n]))
          \/ DocEq(WriteDoc(o.fmt, tree), o.doc)) \/ Say("cfg", k, "alg-dump-text")
